@@ -62,11 +62,20 @@ def unique_prefix() -> str:
 
 
 def write_spec(spec: dict, path_base: str, fmt: str = "json", yaml_int_status: bool = False) -> str:
-    if fmt == "yaml":
+    if fmt in ("yaml", "yaml_int"):
+        import copy
+
         import yaml
 
         p = path_base + ".yaml"
         doc = spec
+        if fmt == "yaml_int":
+            # the same document as many hand-written YAML files spell it: unquoted numeric status codes (200: instead of '200':)
+            doc = copy.deepcopy(spec)
+            for item in (doc.get("paths") or {}).values():
+                for m, op in (item.items() if isinstance(item, dict) else []):
+                    if isinstance(op, dict) and isinstance(op.get("responses"), dict):
+                        op["responses"] = {(int(k) if isinstance(k, str) and k.isdigit() else k): v for k, v in op["responses"].items()}
         with open(p, "w") as f:
             yaml.safe_dump(doc, f, sort_keys=False, allow_unicode=True)
         return p
